@@ -183,7 +183,14 @@ func genYValsCase(r *Rng) Case {
 	n := 3 + r.Intn(7)
 	for i := 0; i < n; i++ {
 		m := pick(r, mods)
-		id := map[string]any{"mod": m, "name": fmt.Sprintf("i%d", i), "base": ""}
+		// local names may coincide between modules: an identity is identified by module and name
+		nm := fmt.Sprintf("i%d", r.Intn(4))
+		for _, o := range g.idents {
+			if cstr(o, "mod") == m && cstr(o, "name") == nm {
+				nm = fmt.Sprintf("i%d", 10+i)
+			}
+		}
+		id := map[string]any{"mod": m, "name": nm, "base": ""}
 		var cands []map[string]any
 		for _, o := range g.idents {
 			if rank[cstr(o, "mod")] <= rank[m] {
